@@ -59,6 +59,11 @@ def make_image(rnd, shape):
             rr, cc = r + k * dr, c + k * dc
             if 0 <= rr < shape[0] and 0 <= cc < shape[1]:
                 im[rr, cc] = amp
+    if rnd.random() < 0.4 and min(shape) >= 4:
+        # an extended source: a filled block (it has interior pixels)
+        h_, w_ = rnd.randint(3, min(6, shape[0])), rnd.randint(3, min(6, shape[1]))
+        r0, c0 = rnd.randint(0, shape[0] - h_), rnd.randint(0, shape[1] - w_)
+        im[r0:r0 + h_, c0:c0 + w_] = rnd.choice([7.0, 12.0, -9.0])
     im = np.round(im * 2) / 2          # ties at the thresholds
     for _ in range(rnd.randint(0, 4)):
         im[rnd.randrange(shape[0]), rnd.randrange(shape[1])] = np.nan
@@ -91,17 +96,28 @@ def case_failures(seed_, with_region):
         w = WCS(naxis=2)
         w.wcs.crpix = [shape[1] / 2.0, shape[0] / 2.0]
         w.wcs.cdelt = [-1.0, 1.0]
-        w.wcs.crval = [rnd.uniform(10, 350), rnd.uniform(-60, 60)]
+        # longitudes on both sides of zero: a negative CRVAL1 makes the WCS report negative longitudes
+        w.wcs.crval = [rnd.choice([rnd.uniform(10, 350), rnd.uniform(-40, -2), rnd.uniform(-3, 3)]), rnd.uniform(-60, 60)]
         w.wcs.ctype = ["RA---SIN", "DEC--SIN"]
-        region = Region(maxdepth=8)
-        ra, dec = w.wcs_pix2world(rnd.uniform(-1, shape[1]), rnd.uniform(-1, shape[0]), 0)
-        region.add_circles(np.radians(float(ra)), np.radians(float(dec)), np.radians(rnd.uniform(0.7, 4.0)))
+        interior = [p for comp in ref for p in comp
+                    if all((p[0] + dr, p[1] + dc) in comp for dr in (-1, 0, 1) for dc in (-1, 0, 1))]
+        if interior and rnd.random() < 0.5:
+            # a small deep region that lies wholly inside an island, around the centre of one of its interior pixels
+            pr, pc = rnd.choice(sorted(interior))
+            region = Region(maxdepth=12)
+            ra, dec = w.wcs_pix2world(pc, pr, 0)
+            region.add_circles(np.radians(float(ra)), np.radians(float(dec)), np.radians(0.08))
+        else:
+            region = Region(maxdepth=8)
+            ra, dec = w.wcs_pix2world(rnd.uniform(-1, shape[1]), rnd.uniform(-1, shape[0]), 0)
+            region.add_circles(np.radians(float(ra)), np.radians(float(dec)), np.radians(rnd.uniform(0.7, 4.0)))
         helper = Helper(w)
         keep = []
         for comp in ref:
             pts = np.array(sorted(comp))
             ras, decs = w.wcs_pix2world(pts[:, 1], pts[:, 0], 0)
-            if region.sky_within(ras, decs, degin=True).any():
+            # the reference asks with longitudes in [0, 360): the finder may pass the negative ones the WCS reports
+            if region.sky_within(np.mod(ras, 360.0), decs, degin=True).any():
                 keep.append(comp)
         ref = keep
     im0 = im.copy()
